@@ -145,6 +145,14 @@ CLAIMED.update({
             "§3 C18"),
 })
 
+CLAIMED.update({
+    "C20": ("model_checking",
+            "explicit enumeration of file states (every sequence of two / three exports of differently shaped tables to one path followed by an import) and of configurations: shapes x value patterns x header lengths x unit arrangements for the round trip, and the four build configurations g++/clang++ x -O0/-O2 of Natural_Units.cpp, each probed for every unit constant after start-up",
+            "The round trip is executed for every member of shapes {1,2,3,7,200}x{1,2,5,12} x 4 value patterns (integers, six-digit decimals over 600 decades, long fractions, dyadics) x {0,1,3} header lines x 3 unit arrangements over 60 decades (lists and both Export_Function overloads likewise): same shape, every value within half a unit of the sixth significant digit, six-digit decimals exactly. Whether a derived constant defined before its base constants has the right value is a property of the build configuration: Natural_Units.cpp is compiled in all four configurations on every run, a probe prints all 130 constants as hex floats, none may be 0/inf/NaN, 38 defining relations (Joule=kg m^2/s^2, Volt*Coulomb=Joule, Ohm=Volt/Ampere, Tesla, Hz, time and length multiples...) must hold within 8u in each build and the builds must agree within 2u.",
+            "Needs g++ and clang++ on PATH (both present in this image). Table configurations whose quotient value/unit leaves the normal double range are excluded and counted. Other compilers or flags (-ffast-math, LTO) are not covered.",
+            "§3 C20"),
+})
+
 NOT_APPLICABLE = {
 }
 
